@@ -6,6 +6,14 @@ HERE = os.path.dirname(os.path.dirname(os.path.abspath(__file__)))
 
 CHECKS = {
  # id: (design section, claim text, level note, technique)
+ "C18": ("5 C18",
+  "Contracts on every function of the import reader over a ghost input stream: the buffer always holds exactly the input bytes read so far (after an optional byte-order mark), errors and EOF are sticky, "
+  "every slice expression (r.buf[start:], r.buf[:len-1]) is in bounds for arbitrary input and arbitrary I/O errors, the explicit 'import reader looping' panic is unreachable (nerr is bounded by per-function budgets), "
+  "and ReadImports / ReadComments return only bytes read from the input: a prefix of it, which on a nil error is either everything read minus the peeked byte or the whole input. "
+  "Agreement with go/parser on valid files (import list, re-parsable prefix, BOM) is checked by a bounded stand-in only.",
+  "assumed: bufio.Reader.ReadByte/Peek/Discard over the ghost input, package-level error values are distinct non-nil constants; termination of the scanning loops is not shown (no decreases clauses); "
+  "bounded: go/parser agreement over generated files (2 BOM variants x 3 package clauses x up to 3/4 import sections from a 9-element vocabulary x 4 tails); the Go grammar has no contract-level specification",
+  "contract-based deductive verification (representation invariant + ghost input, 12 functions, 360+ VCs; z3/cvc5) plus a labelled bounded differential stand-in against go/parser"),
  "C19": ("5 C19",
   "Functional contracts on imports.matchTag (rune loop with an inductive invariant), matchTags (recursive; comma = AND, !, !!), matchOS and MatchFile: each result equals a specification "
   "written from the build-constraint rules (android also selects linux, tags[\"*\"] accepts everything but ignore), for every name and every non-nil tag map; ShouldBuild is proved memory-safe "
